@@ -16,7 +16,7 @@ content of the preceding sub-directive; outside a block they are copied as they 
   //@   contract                             content goes between signature and body
   //@   loop <n> [binder <id>]               content (invariant/decreases) goes before the body of the n-th loop
   //@   before "<anchor>" [#k] | after "<anchor>" [#k]    content inserted at the anchor (k-th occurrence, default: must be unique)
-  //@   subst "<old>" => "<new>" [#k|all] rule <R>        allowed rewrite of body text (R2 R5 R7 R8 B1), must match
+  //@   subst "<old>" => "<new>" [#k|all|opt] rule <R>    allowed rewrite of body text (R2 R5 R7 R8 B1), must match (opt: may match nowhere)
   //@   dropstmt "<prefix>" [all]            R1: drop the statement(s) starting with <prefix>
   //@ end
   //@ item <kind> <file> <Name>              kind: struct enum const type static ; pasted with attributes/doc comments stripped
@@ -281,15 +281,17 @@ class Renderer:
                 if not rest.startswith('=>'):
                     raise ExtractError('bad subst directive: %r' % arg)
                 new, rest = parse_quoted(rest[2:])
-                mm = re.fullmatch(r'\s*(?:#(\d+)|(all))?\s*rule\s+(\w+)\s*', rest)
+                mm = re.fullmatch(r'\s*(?:#(\d+)|(all|opt))?\s*rule\s+(\w+)\s*', rest)
                 if not mm or mm.group(3) not in RULES:
                     raise ExtractError('subst needs `rule <R>` with a known rule: %r' % arg)
                 hits = s.find_anchor(old, lo, hi, int(mm.group(1)) if mm.group(1) else None)
-                if not hits or (len(hits) != 1 and not mm.group(2)):
+                # `opt`: a rewrite of a FAMILY of equivalent spellings (e.g. a < b next to b > a): applies wherever it matches, may match nowhere
+                if (not hits and mm.group(2) != 'opt') or (len(hits) != 1 and not mm.group(2)):
                     raise ExtractError('%s: subst %r matches %d times' % (label, old, len(hits)))
                 for h in hits:
                     edits.append(Edit(h, h + len(old), new, ('subst', label, sd['line'])))
-                self.rule(mm.group(3), '%s: %r -> %r (%d×)' % (label, old, new, len(hits)))
+                if hits:
+                    self.rule(mm.group(3), '%s: %r -> %r (%d×)' % (label, old, new, len(hits)))
             elif k == 'dropstmt':
                 pref, rest = parse_quoted(arg)
                 allf = rest.strip() == 'all'
